@@ -147,16 +147,20 @@ pub fn check_cwe(
                     if graph.neighbors(node).count() > 1 {
                         panic!("Malformed Control flow graph: More than one edge for extern function call")
                     }
-                    let chroot_return_to_node = graph.neighbors(node).next().unwrap();
                     // If chdir is called after chroot, we assume a secure chroot jail.
-                    if is_sink_call_reachable_from_source_call(
-                        graph,
-                        chroot_return_to_node,
-                        &chroot_tid,
-                        &chdir_tid,
-                    )
-                    .is_none()
-                    {
+                    // A chroot call without a return site has no successor node,
+                    // so no chdir call can follow it.
+                    let is_chdir_called_after_chroot = match graph.neighbors(node).next() {
+                        Some(chroot_return_to_node) => is_sink_call_reachable_from_source_call(
+                            graph,
+                            chroot_return_to_node,
+                            &chroot_tid,
+                            &chdir_tid,
+                        )
+                        .is_some(),
+                        None => false,
+                    };
+                    if !is_chdir_called_after_chroot {
                         // If chdir is not called after chroot, it has to be called before it.
                         // Additionally priviledges must be dropped to secure the chroot jail in this case.
                         if !sub_calls_chdir_and_priviledge_dropping_func(
